@@ -163,6 +163,9 @@ def check_cubic_interpolation(F, rep, rule):
     # boundary rows
     check_boundary_rows(rep, rule, fo, "Interpolate", fi, interp=True)
     check_boundary_rows(rep, rule, fo2, "AddBCToFitMatrix", fb, interp=False)
+    if rule.startswith("R12"):
+        # the fit with zero end slopes is offered by csg_resample (C12); csg_fmatch (C06) only uses natural and periodic boundaries
+        check_derivative_zero_rows(rep, rule, fo2, fb, b, side, i)
 
 
 def in_loop(e):
@@ -238,6 +241,78 @@ def check_continuity_rows(fo, rows, mode):
     if not is_zero(got - want):
         return False, "row equation is %s = 0, the C1 condition at knot i+1 is %s = 0" % (sp.expand(got), sp.expand(want))
     return True, ""
+
+
+def reindex(expr, isym, arg):
+    """the grid symbols r[<index expression in i>] of a closed form, with i replaced by arg"""
+    sub = {}
+    for sy in expr.free_symbols:
+        m_ = re.match(r"^(\w+)\[(.*)\]$", str(sy))
+        if m_:
+            idx = sp.sympify(m_.group(2), locals={str(isym): isym, "n": S("n", integer=True)})
+            sub[sy] = gsym(m_.group(1), sp.expand(idx.xreplace({isym: arg})))
+    return expr.xreplace(sub)
+
+
+def check_derivative_zero_rows(rep, rule, fo, f, b, side, isym):
+    """boundary kind splineDerivativeZero of the fit: the first row states S'(r_0) = 0 and the last row S'(r_{n-1}) = 0, over [f; f2] - compared, up to a
+    common factor per row, with the slopes of the spline's own basis functions at the two ends (closed forms folded from A/B/C/Dprime)"""
+    from vsa.cases import decide
+    from sympy.core.function import AppliedUndef
+    nn = S("n", integer=True)
+    o1, o2 = S("offset1"), S("offset2")
+    label = "splineDerivativeZero"
+
+    def orc(leaf):
+        if isinstance(leaf, tuple) and leaf and leaf[0] == "switch":
+            return ("this-case", any(str(l).split("::")[-1] == label for l in leaf[2])) if "boundaries_" in str(leaf[1]) else None
+        if isinstance(leaf, tuple) and len(leaf) == 3 and leaf[0] in ("==", "!="):
+            a_, b_ = str(leaf[1]), str(leaf[2])
+            if "boundaries_" in a_ + b_:
+                other = b_ if "boundaries_" in a_ else a_
+                return ("this-case", (other.split("::")[-1] == label) == (leaf[0] == "=="))
+        return None
+    cand = [e for e in fo.events if e["kind"] == "store" and e.get("idx") and len(e["idx"]) == 2 and is_local_target(e) and not in_loop(e)]
+    rows = {}
+    for e in cand:
+        gs = [(c, pol) for c, pol, _n in e["guards"] if "boundaries_" in str(c)]
+        ts = [decide(c, None, {"this-case": True}, orc, getattr(fo, "conds", {})) for c, _p in gs]
+        if any(t_ is None for t_ in ts):
+            raise AnalysisBroken("CubicSpline::AddBCToFitMatrix: cannot decide whether %s is set for %s" % (e["target"], label))
+        if not gs or not all(t_ == p_ for t_, (_c, p_) in zip(ts, gs)):
+            continue
+        v = e["value"]
+        # the one-sided slope helpers by their (verified) closed forms
+        if hasattr(v, "atoms"):
+            for a_ in list(v.atoms(AppliedUndef)):
+                nm_ = str(a_.func)
+                if nm_ in side and len(a_.args) == 1:
+                    v = v.xreplace({a_: reindex(side[nm_], isym, a_.args[0])})
+        rows.setdefault(sp.expand(e["idx"][0] - o1), {})[sp.expand(e["idx"][1] - o2)] = v
+    if not rows:
+        rep.broken(rule, "CubicSpline::AddBCToFitMatrix: no rows found for the boundary kind splineDerivativeZero")
+        return
+    rI, rI1 = gsym("r", I), gsym("r", I + 1)
+
+    def end_slopes(interval, at):
+        sub = {rI: gsym("r", interval), rI1: gsym("r", interval + 1)}
+        return [b[nm_ + "prime"][1].subs(sub).subs(r, gsym("r", at)) for nm_ in "ABCD"]
+    wants = {sp.Integer(0): dict(zip((sp.Integer(0), sp.Integer(1), nn, nn + 1), end_slopes(sp.Integer(0), sp.Integer(0)))),
+             sp.expand(nn - 1): dict(zip((sp.expand(nn - 2), sp.expand(nn - 1), sp.expand(2 * nn - 2), sp.expand(2 * nn - 1)), end_slopes(nn - 2, nn - 1)))}
+    for row_, want in wants.items():
+        got = {sp.expand(c_): v_ for c_, v_ in rows.get(row_, {}).items()}
+        want = {sp.expand(c_): v_ for c_, v_ in want.items()}
+        end = "left" if row_ == 0 else "right"
+        bad = None
+        if set(got) != set(want):
+            bad = "the row touches the columns %s (required %s)" % (sorted(map(str, got)), sorted(map(str, want)))
+        else:
+            ratios = {c_: sp.simplify(got[c_] / want[c_]) for c_ in want}
+            vals = set(ratios.values())
+            if len(vals) != 1 or not list(vals)[0].is_number or list(vals)[0] == 0:
+                bad = "the coefficients relative to the end slopes (A', B', C', D') of the spline are %s - not one common factor" % {str(k_): str(v_) for k_, v_ in ratios.items()}
+        rep.check(bad is None, rule, "cubic|boundary|AddBCToFitMatrix|splineDerivativeZero|%s" % end, "S'(r_%s) = 0 over [f; f2]" % ("0" if end == "left" else "{n-1}"),
+                  "CubicSpline::AddBCToFitMatrix, case splineDerivativeZero, %s end: %s; the fitted spline does not have zero slope there" % (end, bad), f.loc(), sample=(end == "right"))
 
 
 def check_boundary_rows(rep, rule, fo, fname, f, interp):
